@@ -354,7 +354,8 @@ pub fn generate(seed: u64, idx: u64) -> Scenario {
         5 | 6 => {
             sc.faults.push(Fault::StallRx {
                 from_segment: rng.below(6),
-                ticks: rng.range(10, 2000) as u64,
+                // up to two simulated seconds - or far longer than any timeout a server would use
+                ticks: if rng.chance(400) { *rng.pick(&[3_000u64, 10_000, 60_000]) } else { rng.range(10, 2000) as u64 },
             });
             sc.label = "random lifecycle + stall".into();
         }
